@@ -43,6 +43,7 @@ PAIRS = [("decrease_radius_threshold", "increase_radius_factor", lambda a, b: a 
          ("moderate_resolution_threshold", "large_resolution_threshold", lambda a, b: a <= b),
          ("low_ratio", "high_ratio", lambda a, b: a <= b),
          ("penalty_increase_threshold", "penalty_increase_factor", lambda a, b: a <= b)]
+NAN = float("nan")
 OPTS_F = ["radius_init", "radius_final", "target", "feasibility_tol"]
 OPTS_I = ["nb_points", "maxfev", "maxiter", "history_size", "filter_size"]
 
@@ -115,11 +116,18 @@ def expect_error(n, o, c):
     if "radius_init" in o and "radius_final" in o and o["radius_init"] < o["radius_final"]:
         return True
     for k in ("maxfev", "maxiter", "history_size", "filter_size", "nb_points"):
-        if k in o and not o[k] > 0:
+        if k in o and not o[k] >= 1:          # must be a positive integer once truncated (NaN included)
+            return True
+    for k in ("target", "feasibility_tol"):
+        if k in o and o[k] != o[k]:
             return True
     if "nb_points" in o and o["nb_points"] > (n + 1) * (n + 2) // 2:
         return True
     return False
+
+
+def has_nan(o, c):
+    return any(isinstance(v, float) and v != v for v in list(o.values()) + list(c.values()))
 
 
 def gen_cases(rng, tier):
@@ -138,8 +146,15 @@ def gen_cases(rng, tier):
         for v in (-1, 0, 1, nn, nn + 1, 2 * nn + 1, mx, mx + 1):
             cases.append((nn, {"nb_points": v}, {}))
     for k in ("maxfev", "maxiter", "history_size", "filter_size"):
-        for v in (-3, 0, 1, 2, 50):
+        for v in (-3, 0, 1, 2, 50, 0.5, dn(1.0), 1.5, 2.7):     # also values that are not integers: int() truncates them
             cases.append((n, {k: v}, {}))
+    for v in (0.5, dn(1.0)):
+        cases.append((n, {"nb_points": v}, {}))
+    # NaN is outside every documented domain (evaluated against the documented rule only: the model has no NaN)
+    for k in CONSTS:
+        cases.append((n, {}, {k: NAN}))
+    for k in OPTS_F:
+        cases.append((n, {k: NAN}, {}))
     # coupled pairs: lattice x lattice x presence
     for a, b, _ in PAIRS:
         for va in LAT[DOM[a][0]]:
@@ -183,15 +198,25 @@ def run(chk, rng, replay=None):
         cases = [(c["n"], c["options"], c["constants"]) for c in corpus.load("C19")] + gen_cases(rng, chk.tier)
     reqs = []
     for n, o, c in cases:
-        reqs += [req_opts(n, o), req_consts(c)]
+        reqs += ([req_opts(n, {}), req_consts({})] if has_nan(o, c) else [req_opts(n, o), req_consts(c)])
     ans = driver(reqs)
     mism, specfail, known_round = [], [], 0
     spec_reqs = []
     n_err = n_ok = 0
     kinds = {}
     nontrivial = set()
+    n_nan = 0
     for i, (n, o, c) in enumerate(cases):
         got = run_impl(n, o, c)
+        if has_nan(o, c):
+            # no model for NaN: only the documented rule is evaluated
+            n_nan += 1
+            if got[0] not in ("err", "ok"):
+                specfail.append(({"n": n, "options": o, "constants": c}, "unexpected outcome " + str(got)))
+            elif (got[0] == "err") != expect_error(n, o, c):
+                specfail.append(({"n": n, "options": o, "constants": c}, "value outside its documented domain accepted" if got[0] == "ok" else "valid settings rejected: " + got[1]))
+            nontrivial.add(repr({"n": n, "options": o, "constants": c}))
+            continue
         mo, mc = ans[2 * i], ans[2 * i + 1]
         # model prediction of the whole call: constants are completed after the options
         if mo.startswith("err"):
@@ -221,7 +246,7 @@ def run(chk, rng, replay=None):
                               req_opts(n, {k: go[k] for k in ("radius_init", "radius_final", "nb_points", "maxfev", "maxiter", "target", "feasibility_tol", "history_size", "filter_size")})))
             for k, v in list(o.items()) + list(c.items()):
                 gv = go[k] if k in go and k in o else gc.get(k)
-                if gv != v:
+                if gv != (int(v) if k in OPTS_I else v):
                     specfail.append((case, f"supplied {k}={v!r} not kept ({gv!r})"))
         else:
             specfail.append((case, "unexpected outcome " + str(got)))
@@ -238,7 +263,7 @@ def run(chk, rng, replay=None):
     from scipy.optimize import Bounds
     degenerate = 0
     for i, (n, o, c) in enumerate(cases):
-        if not (expect_error(n, o, c) or i % 9 == 0):
+        if has_nan(o, c) or not (expect_error(n, o, c) or i % 9 == 0):
             continue
         for kind, bnds, nfree in (("all-fixed", Bounds(np.zeros(n), np.zeros(n)), 0), ("inconsistent", Bounds(np.ones(n), -np.ones(n)), n)):
             degenerate += 1
@@ -270,6 +295,8 @@ def run(chk, rng, replay=None):
     unknown = 0
     from scipy.optimize import Bounds
     for n, o, c in cases[:: max(1, len(cases) // 40)]:
+        if has_nan(o, c):
+            continue
         base = run_impl(n, o, c)
         alt = run_impl(n, o, c, extra_opts={"no_such_option": 1}, extra_consts={"no_such_constant": 2.0})
         unknown += 1
@@ -290,13 +317,17 @@ def run(chk, rng, replay=None):
         "samples": [{"n": n, "options": o, "constants": c} for n, o, c in cases[-3:]],
         "rejected_with_ValueError": n_err, "accepted": n_ok, "error_kinds": len(kinds),
         "unknown_name_cases": unknown, "low_nb_points_cases": low_pts, "degenerate_bounds_cases": degenerate,
-        "correspondence_mismatches": len(mism),
+        "correspondence_mismatches": len(mism), "nan_cases": n_nan,
     })
     chk.assumptions += ["theorems are over exact rationals; the Float run of the same definitions is compared with the code (rounding is visible only there)",
                         "boolean settings (disp, scale, store_history, debug, improve_tcg) accept any value and are not modelled",
-                        "NaN setting values are outside the lattice of the property and are not modelled"]
-    for case, what in specfail[:5]:
-        sig = {"what": what.split(":")[0], "detail": what,
+                        "NaN setting values have no model: they are judged by the documented rule only (NaN lies in no documented domain)"]
+    reported = 0
+    for case, what in specfail:
+        if reported >= 5:
+            break
+        before = len(chk.violations)
+        sig = {"what": what.split(":")[0], "detail": what, "nan_supplied": has_nan(case["options"], case["constants"]),
                "increase_radius_factor": case["constants"].get("increase_radius_factor"),
                "decrease_radius_threshold_supplied": "decrease_radius_threshold" in case["constants"],
                "model_verdict": ("decrease_radius_threshold must be greater than 1" in what)}
@@ -304,7 +335,8 @@ def run(chk, rng, replay=None):
                        "constants": case["constants"], "failure": what,
                        "explain": "call cobyqa.minimize(lambda x: sum(x**2), zeros(n), options=options, **constants); the documented rule named in 'failure' is broken",
                        "signature": sig})
-    if not specfail and (not ok or mism):
+        reported += len(chk.violations) - before
+    if not chk.violations and (not ok or mism):
         rep = {"property": "C19", "kind": "proof-or-correspondence-broken"}
         if not ok:
             rep["broken"] = info.get("problems")
